@@ -98,7 +98,7 @@ func TestVerif_C04(t *testing.T) {
 	res.assume("envelope: rules are created at establishment, every session has its downlink PDR in the same establishment as its uplink PDRs; modifications = Update FAR / Update QER / CP F-SEID change / deletion; PDRs sharing an application filter carry the same precedence; all downlink FARs of a session are in the same state (one UE, one tunnel); QER lists are [application, session]")
 	res.assume("tunnel-peer ids, application ids, counter and meter indices are resolved through the tables the agent wrote: any consistent choice passes")
 	res.assume("a killed incarnation is simulated in-process: the P4Runtime server refuses every Write of the old client from the kill point on")
-	nh := vEnv.pick(200, 9000)
+	nh := vEnv.pick(600, 9000)
 	var a *vAgent
 	var ucfg mUP4Cfg
 	curCfg := -1
@@ -157,7 +157,7 @@ func TestVerif_C04(t *testing.T) {
 }
 
 func c04Restart(res *vResult) {
-	n := vEnv.pick(30, 1800)
+	n := vEnv.pick(60, 1800)
 	for ci := 0; ci < n; ci++ {
 		idx := 2000000 + ci
 		if !vEnv.mine(idx) {
